@@ -91,6 +91,13 @@ CHECKS = {
                      "constructed/nested strings, SET and SET OF permutations, explicit DEFAULT values, non-FF TRUE, unknown extension additions) and the reference "
                      "UPER/OER/XER encodings; every one must decode RC_OK, consume everything and re-encode to the reference DER.",
                 note="Only encodings the standards make valid are generated; variants sampled (3/12 per family and value); families hitting the two listed BER findings are a 15% minority."),
+    "C06": dict(level="exploration", engine="vdriver", ref="DESIGN.md 4/C06",
+                technique="metamorphic monitor: canonical encoder outputs of equivalent in-memory representations compared byte for byte (ASan-watched)",
+                text="The structure decoded from the reference DER is the base; equivalent representations are made in memory by a descriptor-driven walker (SET OF "
+                     "permutation, INTEGER sign-extension padding, DEFAULT materialisation via default_value_set, unused-bit noise) and by decoding valid non-canonical "
+                     "BER of the same value (member reordering, explicit DEFAULTs, dirty unused bits, constructed strings, length forms); DER, CANONICAL-XER, canonical "
+                     "UPER and OER of each must equal the base's and compare_struct must be 0; default and -fwide-types builds.",
+                note="Only value-preserving transformations; transformations without a site in the value are not counted; values sampled."),
 }
 
 PENDING_REASON = "check not implemented yet (bring-up in progress; see DESIGN.md section 9)"
